@@ -295,15 +295,8 @@ Proof.
       * apply IH. lia.
 Qed.
 
-(* ------------------------------------------------------------------ url.split("/")[-3:] *)
-Lemma split_slash_cons a r : no_slash a -> split_slash (a ++ "/"%char :: r) = a :: split_slash r.
-Proof.
-  induction 1 as [|c a Hc Ha IH]; simpl.
-  - reflexivity.
-  - rewrite Hc, IH. reflexivity.
-Qed.
-
-Lemma split_slash_last a : no_slash a -> split_slash a = [a].
+(* ------------------------------------------------------------------ url.split("?", 1)[-1].split("/", 3)[1:] *)
+Lemma cut_slash_app a r : no_slash a -> cut_slash (a ++ "/"%char :: r) = Some (a, r).
 Proof.
   induction 1 as [|c a Hc Ha IH]; simpl; [reflexivity|]. rewrite Hc, IH. reflexivity.
 Qed.
@@ -316,38 +309,18 @@ Proof.
   apply clean36_no_slash. apply (cleanb_weaken 10); [lia|]. apply Hc. exact Hin.
 Qed.
 
-Lemma compass_url_split h w body : 0 <= h -> 0 <= w -> no_slash body ->
-  split_slash (compass_prefix ++ py_str_int w ++ slash ++ py_str_int h ++ slash ++ body) =
-  [["h"; "t"; "t"; "p"; "s"; ":"]%char; []; ["p"; "u"; "z"; "z"; "."; "l"; "i"; "n"; "k"]%char;
-   ["p"; "?"; "c"; "o"; "m"; "p"; "a"; "s"; "s"]%char; py_str_int w; py_str_int h; body].
+Lemma compass_url_fields h w body : 0 <= h -> 0 <= w ->
+  exists r1, cut_slash (after_question (compass_prefix ++ py_str_int w ++ slash ++ py_str_int h ++ slash ++ body)) = Some (["c"; "o"; "m"; "p"; "a"; "s"; "s"]%char, r1) /\
+             cut_slash r1 = Some (py_str_int w, py_str_int h ++ slash ++ body) /\
+             cut_slash (py_str_int h ++ slash ++ body) = Some (py_str_int h, body).
 Proof.
-  intros Hh Hw Hb.
-  change compass_prefix with
-    ((["h"; "t"; "t"; "p"; "s"; ":"]%char) ++ "/"%char :: ([] ++ "/"%char ::
-     ((["p"; "u"; "z"; "z"; "."; "l"; "i"; "n"; "k"]%char) ++ "/"%char ::
-      ((["p"; "?"; "c"; "o"; "m"; "p"; "a"; "s"; "s"]%char) ++ "/"%char :: [])))).
-  unfold slash. repeat rewrite <- app_assoc. simpl app.
-  change ("h"%char :: "t"%char :: "t"%char :: "p"%char :: "s"%char :: ":"%char :: "/"%char :: ?x)
-    with ((["h"; "t"; "t"; "p"; "s"; ":"]%char) ++ "/"%char :: x).
-  rewrite split_slash_cons by (repeat constructor).
-  change ("/"%char :: "p"%char :: ?x) with ([] ++ "/"%char :: "p"%char :: x).
-  rewrite split_slash_cons by constructor.
-  change ("p"%char :: "u"%char :: "z"%char :: "z"%char :: "."%char :: "l"%char :: "i"%char :: "n"%char :: "k"%char :: "/"%char :: ?x)
-    with ((["p"; "u"; "z"; "z"; "."; "l"; "i"; "n"; "k"]%char) ++ "/"%char :: x).
-  rewrite split_slash_cons by (repeat constructor).
-  change ("p"%char :: "?"%char :: "c"%char :: "o"%char :: "m"%char :: "p"%char :: "a"%char :: "s"%char :: "s"%char :: "/"%char :: ?x)
-    with ((["p"; "?"; "c"; "o"; "m"; "p"; "a"; "s"; "s"]%char) ++ "/"%char :: x).
-  rewrite split_slash_cons by (repeat constructor).
-  rewrite split_slash_cons by (apply str_int_no_slash; exact Hw).
-  rewrite split_slash_cons by (apply str_int_no_slash; exact Hh).
-  rewrite split_slash_last by exact Hb.
-  reflexivity.
+  intros Hh Hw. exists (py_str_int w ++ slash ++ py_str_int h ++ slash ++ body). unfold slash. split; [|split].
+  - change (after_question (compass_prefix ++ py_str_int w ++ ["/"%char] ++ py_str_int h ++ ["/"%char] ++ body))
+      with ((["c"; "o"; "m"; "p"; "a"; "s"; "s"]%char) ++ "/"%char :: (py_str_int w ++ ["/"%char] ++ py_str_int h ++ ["/"%char] ++ body)).
+    apply cut_slash_app. repeat constructor.
+  - apply (cut_slash_app (py_str_int w)). apply str_int_no_slash. exact Hw.
+  - apply (cut_slash_app (py_str_int h)). apply str_int_no_slash. exact Hh.
 Qed.
-
-Lemma compass_url_parts h w body : 0 <= h -> 0 <= w -> no_slash body ->
-  let parts := split_slash (compass_prefix ++ py_str_int w ++ slash ++ py_str_int h ++ slash ++ body) in
-  skipn (length parts - 3) parts = [py_str_int w; py_str_int h; body].
-Proof. intros Hh Hw Hb. cbv zeta. rewrite compass_url_split by assumption. reflexivity. Qed.
 
 (* ------------------------------------------------------------------ placing the clues on the board *)
 Lemma set_nth_length {A} (l : list A) i x : length (set_nth l i x) = length l.
@@ -563,10 +536,10 @@ Proof.
   exists (enc_cells cells 0). split.
   - unfold to_puzz_link_url. rewrite Hbody. reflexivity.
   - unfold parse_puzz_link_url.
-    assert (Hns : no_slash (enc_cells cells 0)) by (apply enc_cells_no_slash; [exact Hcells|lia]).
     change (make_url default_prefix ["c"; "o"; "m"; "p"; "a"; "s"; "s"]%char h w (enc_cells cells 0))
       with (compass_prefix ++ py_str_int w ++ slash ++ py_str_int h ++ slash ++ enc_cells cells 0).
-    pose proof (compass_url_parts h w (enc_cells cells 0) Hh Hw Hns) as Hp. cbv zeta in Hp. rewrite Hp.
+    destruct (compass_url_fields h w (enc_cells cells 0) Hh Hw) as (r1 & F1 & F2 & F3).
+    rewrite F1, F2, F3.
     destruct (str_nat_digits w Hw) as (_ & _ & Ew). destruct (str_nat_digits h Hh) as (_ & _ & Eh).
     rewrite Ew, Eh. cbn [bind].
     assert (Hlen : length cells = (H * W)%nat).
